@@ -550,6 +550,43 @@ def render_loops(t):
         "Definition negate_table : neg_table := {| n_T := %s; n_F := %s; n_M := %s |}." % (t["Neg"]["True"], t["Neg"]["False"], t["Neg"]["Missing"]), ""])
 
 
+# ---- numeric pattern arms of the loader (scalar copy, list copy) -------------------------------
+def extract_num_arms(src):
+    flat = " ".join(strip_comments(src).split())
+    pat = re.compile(r"Pattern::(F?)(Equal|GreaterThan|GreaterThanOrEqual|LessThan|LessThanOrEqual)\(i\) => "
+                     r"(\{ number = true; rest\.push\()?Expression::BooleanExpression\( Box::new\((\w+)\.clone\(\)\), "
+                     r"BoolSym::(\w+), Box::new\(Expression::(Integer|Float)\(i\)\), \)")
+    found = pat.findall(flat)
+    heads = re.findall(r"Pattern::F?(?:Equal|GreaterThan|GreaterThanOrEqual|LessThan|LessThanOrEqual)\(i\) =>", flat)
+    if len(found) != len(heads):
+        fail("a numeric pattern arm is not of the BooleanExpression(e, op, constant) shape (%d of %d)" % (len(found), len(heads)))
+    if len(found) != 20:
+        fail("expected two copies of the ten numeric pattern arms, found %d arms" % len(found))
+    tables = []
+    for part, lst, var in ((found[:10], False, None), (found[10:], True, None)):
+        if any(bool(x[2]) != lst for x in part) or len(set(x[3] for x in part)) != 1:
+            fail("the numeric arms are not grouped as a scalar copy followed by a list copy")
+        if sorted((x[0], x[1]) for x in part) != sorted((f, k) for f in ("", "F") for k in CMPK):
+            fail("a copy of the numeric arms does not cover the ten patterns exactly once")
+        rows = []
+        for f, k, _, _, op, const in part:
+            if op not in OPS:
+                fail("numeric arm builds BoolSym::" + op)
+            rows.append(("true" if f else "false", CMPK[k], OPS[op], "true" if const == "Float" else "false"))
+        tables.append(rows)
+    return tables
+
+
+def render_num_arms(tables):
+    def tab(name, rows):
+        return "Definition %s : list num_arm :=\n  [%s]." % (name, ";\n   ".join("(%s, %s, %s, %s)" % r for r in rows))
+    return "\n".join([
+        "(* AUTO-GENERATED by tools/gen_tables.py from src/parser.rs (the numeric pattern arms: the copy for scalar"
+        "\n   values, the copy for list members; arms in source order) -- do not edit. *)",
+        "From TauModel Require Import Base Syntax Ident IdentTable NumArmTable.", "",
+        tab("scalar_num_arms", tables[0]), "", tab("list_num_arms", tables[1]), ""])
+
+
 def coq_str(s):
     return "[" + "; ".join(str(ord(ch)) for ch in s) + "]%N"
 
@@ -651,6 +688,18 @@ def main():
         status["solver_loops"] = "ok"
     except Unrecognised as e:
         status["solver_loops"] = "shape not recognised: %s" % e
+    # table 6: the numeric pattern arms of the loader
+    try:
+        try:
+            psrc = open(os.path.join(REPO, "src", "parser.rs"), encoding="utf-8").read()
+        except OSError as e:
+            fail("cannot read parser.rs: %s" % e)
+        nt = extract_num_arms(psrc)
+        info["num_arms_changed"] = write_if_changed(os.path.join(os.path.dirname(out), "GeneratedNumArms.v"), render_num_arms(nt))
+        info["num_arms"] = [len(x) for x in nt]
+        status["parser_num_arms"] = "ok"
+    except Unrecognised as e:
+        status["parser_num_arms"] = "shape not recognised: %s" % e
     info["status"] = status
     if "--json" in sys.argv:
         print(json.dumps(info))
